@@ -18,7 +18,7 @@ RULE = ('round trips over the shape alphabet x D x P x value kinds {random, inte
 ASSUMPTIONS = ['numpy.block / numpy.triu_indices / own cycle count are the independent models']
 NMAX = {'quick': 6, 'thorough': 9}
 SHAPES = [(), (1,), (3,), (2, 3), (3, 1), (2, 1, 2)]
-REQUIRED = ['base_and_dirs', 'utpm2dirs', 'symvec_vecsym', 'vecsym_symvec', 'as_utpm', 'ndarray2utpm', 'shift',
+REQUIRED = ['base_and_dirs', 'utpm2dirs', 'symvec_vecsym', 'vecsym_symvec', 'symvec_triangular_storage', 'as_utpm', 'ndarray2utpm', 'shift',
             'combine_blocks', 'coeff_op', 'piv2mat', 'piv2det', 'piv_plu']
 EXHAUSTIVE_NOTE = 'pivot vectors enumerated completely up to Nmax'
 
@@ -244,6 +244,40 @@ def _sym(ctx, p, rng):
         if not ok:
             ctx.violation('symvec_vecsym:%s:%s' % (uplo, wrap), {'D': D, 'P': P, 'n': n, 'UPLO': uplo, 'vals': kind}); return
         ctx.ok('symvec_vecsym', ('sv', wrap) + cls, exact=True)
+    _tri_storage(ctx, D, P, kind, n, uplo, cls, rng)
+
+
+def _tri_storage(ctx, D, P, kind, n, uplo, cls, rng):
+    """triangular storage: with UPLO 'L' / 'U' only the named triangle defines the matrix, whatever the other one holds;
+    'F' symmetrizes.  Same answer for ndarray, UTPM and traced (Function) arguments, and from a replay of the recorded node"""
+    iu = np.triu_indices(n)
+    Md = _vals(rng, (D, P, n, n), 'random' if kind == 'nonfinite' else kind)
+    MdT = Md.transpose(0, 1, 3, 2)
+    want = {'U': Md[(slice(None), slice(None)) + iu], 'L': MdT[(slice(None), slice(None)) + iu],
+            'F': 0.5 * (Md + MdT)[(slice(None), slice(None)) + iu]}[uplo]
+    from algopy import Function, CGraph
+    for wrap in ('ndarray', 'utpm', 'function-ndarray', 'function-utpm', 'traced'):
+        try:
+            if wrap == 'ndarray':
+                got = algopy.symvec(Md[0, 0].copy(), uplo); ok = _same(got, want[0, 0])
+            elif wrap == 'utpm':
+                got = algopy.symvec(UTPM(Md.copy()), uplo); ok = _same(got.data, want)
+            elif wrap == 'function-ndarray':
+                got = algopy.symvec(Function(Md[0, 0].copy()), uplo); ok = _same(got.x, want[0, 0])
+            elif wrap == 'function-utpm':
+                got = [algopy.symvec(Function(UTPM(Md.copy())), uplo), algopy.symvec(Function(UTPM(Md.copy())), UPLO=uplo)][n % 2]; ok = _same(got.x.data, want)
+            else:
+                cg = CGraph()
+                X = Function(UTPM(np.ones((1, 1, n, n))))
+                Y = algopy.symvec(X, uplo)
+                cg.trace_off(); cg.independentFunctionList = [X]; cg.dependentFunctionList = [Y]
+                cg.pushforward([UTPM(Md.copy())])
+                ok = _same(cg.dependentFunctionList[0].x.data, want)
+        except Exception as e:
+            ctx.violation('symvec:triangular-storage:%s:%s:raises' % (uplo, wrap), {'D': D, 'P': P, 'n': n, 'error': repr(e)[:200]}); return
+        if not ok:
+            ctx.violation('symvec:triangular-storage:%s:%s' % (uplo, wrap), {'D': D, 'P': P, 'n': n, 'UPLO': uplo, 'vals': kind}); return
+        ctx.ok('symvec_triangular_storage', ('ts', wrap) + cls, exact=(uplo != 'F'))
 
 
 def _perm_from_piv(piv):
